@@ -182,6 +182,29 @@ def surroundings(ctx):
                                    "invocations": runs, "expected_exit": want_rc, "expected_invocations": want_runs})
 
 
+def default_command(ctx):
+    """the command xargs runs when none is given (echo) is an invocation like any other: when it cannot write its line it has failed
+    (123, the remaining input is still processed), and no way of failing gives a status outside the documented ones"""
+    import subprocess
+    for opts in ([], ["-n1"], ["-I{}"], ["-i"], ["-L1"]):
+        for how in ("full", "closed-pipe"):
+            if how == "full":
+                out = open("/dev/full", "wb")
+            else:
+                r, out = os.pipe()
+                os.close(r)
+            try:
+                p = subprocess.run([fw.XARGS] + opts, input=b"a\nb c\n", stdout=out, stderr=subprocess.PIPE, env=xc.ENV, timeout=60)
+            finally:
+                out.close() if how == "full" else os.close(out)
+            ctx.count(("default-command", tuple(opts), how), True, "default-command")
+            if p.returncode != 123:
+                ctx.violation("xargs %s (no command: echo) with standard output %s: exit %d; every echo failed: 123 (%s)"
+                              % (" ".join(opts), "on a full device" if how == "full" else "a closed pipe", p.returncode, p.stderr.decode("utf-8", "replace")[:100]),
+                              {"property": "C19", "kind": "default-command", "options": opts, "stdout": how, "exit": p.returncode,
+                               "stderr": p.stderr.decode("utf-8", "replace")[:300], "expected_exit": 123})
+
+
 def run(ctx):
     rng = ctx.rng
     cases = [gen_case(rng) for _ in range(40000 if ctx.thorough else 3000)]
@@ -191,6 +214,7 @@ def run(ctx):
     report(ctx, bad)
     e2e(ctx)
     surroundings(ctx)
+    default_command(ctx)
 
 
 def replay(ctx, rep):
